@@ -26,6 +26,7 @@ Next == Emit
 Spec == Init /\ [][Next]_vars
 
 ThoroughVals == {-3, 0, 1, 2, 5}
+TwoFits == {-2, 2}
 MixedFits == {-2, 0, 2}     \* champion fitness: negative, zero and positive (cost-like fitness functions are in scope)
 SeriesLaws == kind = "series" => Laws(series)
 SeriesPermutationInvariant == (kind = "series" /\ Len(series) <= 4) => PermutationInvariant(series)
